@@ -1036,7 +1036,7 @@ func (m *machine) LowerInstr(instr *ssa.Instruction) {
 	case ssa.OpcodeUload8, ssa.OpcodeUload16, ssa.OpcodeUload32, ssa.OpcodeSload8, ssa.OpcodeSload16, ssa.OpcodeSload32:
 		ptr, offset, _ := instr.LoadData()
 		ret := m.c.VRegOf(instr.Return())
-		m.lowerExtLoad(op, ptr, offset, ret)
+		m.lowerExtLoad(op, ptr, offset, ret, instr.Return().Type().Bits() == 64)
 	case ssa.OpcodeVconst:
 		result := m.c.VRegOf(instr.Return())
 		lo, hi := instr.VconstData()
@@ -1558,9 +1558,21 @@ func (m *machine) lowerLoad(ptr ssa.Value, offset uint32, typ ssa.Type, dst rega
 	m.insert(load)
 }
 
-func (m *machine) lowerExtLoad(op ssa.Opcode, ptr ssa.Value, offset uint32, dst regalloc.VReg) {
+func (m *machine) lowerExtLoad(op ssa.Opcode, ptr ssa.Value, offset uint32, dst regalloc.VReg, _64 bool) {
 	mem := newOperandMem(m.lowerToAddressMode(ptr, offset))
 	load := m.allocateInstr()
+	// A 32-bit result must not leave sign bits in the upper half of the register: 32-bit values are used
+	// as they are where a zero extension is folded away (e.g. into an addressing mode).
+	switch {
+	case op == ssa.OpcodeSload8 && !_64:
+		load.asMovsxRmR(extModeBL, mem, dst)
+		m.insert(load)
+		return
+	case op == ssa.OpcodeSload16 && !_64:
+		load.asMovsxRmR(extModeWL, mem, dst)
+		m.insert(load)
+		return
+	}
 	switch op {
 	case ssa.OpcodeUload8:
 		load.asMovzxRmR(extModeBQ, mem, dst)
